@@ -70,9 +70,16 @@ SITES = [
     ("ident_constant", ["exppp"], lambda n: f"fmt wrap {n}", ("raw", "wrap", "vsprintf", "exppp.c")),
     ("ident_attribute", ["exppp"], lambda n: f"exprlen {n}", ("EXPRlength", "EXPRstring")),
     ("string_case_label", ["exppp"], lambda n: f"exprlen {n}", ("EXPRlength", "EXPRstring", "raw", "wrap")),
-    ("ident_enum_item", ["exp2cxx"], lambda n: f"casefn StrToLower {n}", ("StrToLower",)),
-    ("ident_schema", ["exp2cxx"], lambda n: f"casefn StrToUpper {n}", ("StrToUpper",)),
+    ("ident_schema", ["exppp"], lambda n: f"filename {n}", ("exppp_filename_buffer", "SCHEMAout")),
+    ("many_enum_items", ["exp2cxx"], lambda n: f"desc {n} {len('item_') + len(str(n - 1)) + 2}", ("TypeBody_Description", "TypeDescription", "strcat_bounds")),
 ]
+# identifiers by role through the generators: gate (reject above the limit), then the case-conversion loops
+for _tool in ("exp2cxx", "exp2python"):
+    for _role, _fn in (("enum_item", "StrToLower"), ("attribute", "StrToLower"), ("select_type", "StrToLower"),
+                       ("schema", "StrToUpper"), ("enum_type", "StrToConstant"), ("entity", "StrToLower"), ("type", "StrToLower"),
+                       ("subtype", "StrToLower"), ("aggr_type", "StrToLower")):
+        SITES.append((f"ident_{_role}", [_tool], (lambda t, f: (lambda n: f"gatedfn {t} {f} {n}"))(_tool, _fn),
+                      ("StrToLower", "StrToUpper", "StrToConstant", "newword")))
 
 
 def caps_from_model(model):
@@ -82,7 +89,7 @@ def caps_from_model(model):
 
 def boundary_ns(model, query, tier):
     """sizes around the first n where the model's outcome class changes, plus far-out sizes"""
-    probe = sorted(set([1, 2, 5, 10, 15, 17, 18, 19, 20, 21, 25, 50, 100, 200, 239, 240, 241, 242, 250, 254, 255, 256, 257, 258,
+    probe = sorted(set([1, 2, 5, 10, 15, 17, 18, 19, 20, 21, 25, 50, 100, 198, 199, 200, 201, 202, 239, 240, 241, 242, 250, 254, 255, 256, 257, 258,
                         300, 400, 998, 999, 1000, 1001, 2000, 5000, 9990, 9996, 9997, 9998, 9999, 10000, 10001, 10002,
                         10010, 12000, 20000] + ([100000] if tier == "thorough" else [30000])))
     reps = model.ask(*[query(n) for n in probe])
@@ -95,8 +102,10 @@ def boundary_ns(model, query, tier):
         chosen.update([255, 256, 257] if "remark" in query(1) else [])
         chosen.update([17, 18, 19, 20, 25, 100] if "pushes" in query(1) else [])
         chosen.update([9998, 9999, 10000, 10001, 12000] if ("fmt" in query(1) or "exprlen" in query(1)) else [])
-        chosen.update([239, 240, 241, 242] if "casefn" in query(1) else [])
-    chosen.update([1000 if "pushes" in query(1) else probe[-1]])
+        chosen.update([239, 240, 241, 242] if ("casefn" in query(1) or "gatedfn" in query(1)) else [])
+        chosen.update([995, 996, 1000] if "filename" in query(1) else [])
+        chosen.update([500, 610, 700] if "desc" in query(1) else [])
+    chosen.update([1000 if "pushes" in query(1) else 3000 if query(1).startswith("desc") else probe[-1]])
     return sorted(chosen)
 
 
@@ -303,7 +312,9 @@ THEOREM_SITE = {
     "C06_scope_index_in_range": ["nested_functions"],
     "C06_no_overflow_wrap": ["ident_entity", "encoded_string"], "C06_no_overflow_raw": ["string_literal"],
     "C06_no_overflow_wrap_line": [], "C06_no_overflow_exprlength": ["ident_attribute"],
-    "C06_no_overflow_case_fns_partial": ["ident_enum_item"],
+    "C06_no_overflow_case_fns": ["ident_enum_item", "ident_attribute", "ident_schema"], "C06_ident_gate": ["ident_enum_item", "ident_schema"],
+    "C06_ident_gate_present": ["ident_enum_item", "ident_schema"], "C06_no_overflow_type_description": ["many_enum_items"],
+    "C06_no_overflow_exppp_filename": ["ident_schema"],
 }
 
 
@@ -324,7 +335,6 @@ def run(ctx):
         "scope pushes/pops of the LR parser are well nested (no pop without a push)",
     ]
     ctx.cov["partial"] = [
-        {"theorem": "C06_no_overflow_case_fns_partial", "excluded": "identifiers of MAX_LEN+1 = 241 characters or more (StrToLower/StrToUpper/StrToConstant loops are unbounded)"},
         {"scope": "whole property", "excluded": "all memory behaviour outside the modelled sites; observed by ASan/UBSan runs only"},
     ]
     proof_ok = ctx.lean(PROPS, exes=["m_c06"], extractors=["c06_buffers"])
@@ -371,6 +381,10 @@ def run(ctx):
                     disagreements.append((fam, n, t, pred, f"{r['cls']} rc={r['rc']}"))
                 elif pc == "reject" and r["cls"] == "reject" and "nested" in fam and "nested scopes" not in r["err"]:
                     disagreements.append((fam, n, t, pred, f"rejected without the depth diagnostic: {r['diag'][:120]}"))
+                elif pc == "reject" and r["cls"] == "reject" and fam.startswith("ident_") and t != "exppp" and "characters long" not in r["err"]:
+                    disagreements.append((fam, n, t, pred, f"rejected without the identifier-length diagnostic: {r['diag'][:120]}"))
+                elif pc == "ok" and fam.startswith("ident_") and t != "exppp" and r["cls"] == "reject" and "characters long" in r["err"]:
+                    disagreements.append((fam, n, t, pred, "identifier refused although the model's gate accepts it"))
     # error heap: number of buffered diagnostics printed before the tool stops itself
     for fam, body in (("many_lex_errors", len("character ($) is not a valid lexical element by itself")),):
         for n in ([40, 99, 100, 101, 150] if quick else [1, 40, 74, 75, 76, 99, 100, 101, 150, 1000]):
